@@ -401,5 +401,6 @@ PROPERTIES = {
             "ASCII set = identifier start bytes of the dispatch map; non-ASCII defers to the scalar routine; blank = {<=0x20, U+3000} in all three places; the CPU dispatcher "
             "selects only the two siblings; (c) keyword table: 122 lower-case ASCII strings, each the lower-cased name of its KeywordKind variant, bijective with the enum; a "
             "keyword type is returned only under eq_ignore_ascii_case of the whole word; (d) Inline* comment kinds only when no line break precedes and the token is not first. "
-            "Not decided: boundary positions as a function of text (sub-lexer arithmetic), the AVX2 chunk/tail arithmetic, non-empty-content clause.", []),
+            "(e) closed inventory of the lexer's library byte searches (needles, text searched) and agreement of each block-comment kind with its closing delimiter and the length added. "
+            "Not decided: boundary positions computed by hand-written sub-lexer loops, the AVX2 chunk/tail arithmetic, non-empty-content clause.", []),
 }
